@@ -193,21 +193,39 @@ func (g *Gen) goValue(depth int, withBad bool) *GV {
 		return &GV{K: "P", Elems: []*GV{g.goValue(depth-1, withBad)}}
 	case 9, 10:
 		n := g.n(4)
-		l := &GV{K: "L", NilRef: n == 0 && g.chance(1, 2)}
+		l := &GV{K: "L", NilRef: n == 0 && g.chance(1, 2), Typed: g.chance(1, 3)}
+		if l.Typed {
+			// a statically typed slice: []string, []int64, []float64, []bool
+			kind := g.n(4)
+			for i := 0; i < 1+g.n(3); i++ {
+				l.Elems = append(l.Elems, g.scalarOfKind(kind))
+			}
+			l.NilRef = false
+			return l
+		}
 		for i := 0; i < n; i++ {
 			l.Elems = append(l.Elems, g.goValue(depth-1, withBad))
 		}
 		return l
 	case 11:
 		n := g.n(4)
-		m := &GV{K: "M", NilRef: n == 0 && g.chance(1, 2)}
+		m := &GV{K: "M", NilRef: n == 0 && g.chance(1, 2), Typed: g.chance(1, 3), NKey: g.chance(1, 3)}
+		kind := g.n(4)
+		if m.Typed || m.NKey {
+			m.NilRef = false
+			n = 1 + g.n(3)
+		}
 		for i := 0; i < n; i++ {
 			key := g.pick([]string{"a", "A", "b", "name", "Name", "Key", "key", "x y", ""})
 			if containsStr(m.Keys, key) {
 				continue
 			}
 			m.Keys = append(m.Keys, key)
-			m.Elems = append(m.Elems, g.goValue(depth-1, withBad))
+			if m.Typed {
+				m.Elems = append(m.Elems, g.scalarOfKind(kind))
+			} else {
+				m.Elems = append(m.Elems, g.goValue(depth-1, withBad))
+			}
 		}
 		return m
 	default:
@@ -224,6 +242,19 @@ func (g *Gen) goValue(depth int, withBad bool) *GV {
 		}
 		return t
 	}
+}
+
+// scalarOfKind: a scalar of one fixed static type (0 string, 1 int64, 2 float64, 3 bool)
+func (g *Gen) scalarOfKind(kind int) *GV {
+	switch kind {
+	case 0:
+		return gvStr(g.pick([]string{"", "x", "héllo", "<i>", "a b"}))
+	case 1:
+		return gvInt([]int64{0, 1, -1, 42, -1000}[g.n(5)])
+	case 2:
+		return gvFloat([]float64{0, 1.5, -2.25, 100}[g.n(4)])
+	}
+	return gvBool(g.chance(1, 2))
 }
 
 // ---------------------------------------------------------------------------------------------
@@ -309,6 +340,52 @@ func casesC10(g *Gen) []*Case {
 			c.Oracle = oracleC10(content, "[", "]")
 			cs = append(cs, c)
 		}
+	}
+	// the same literal in the argument positions of the template directives, through a template tree
+	treeSeen := map[string]bool{}
+	addTree := func(content string) {
+		if treeSeen[content] || strings.HasSuffix(content, "\\") {
+			return
+		}
+		treeSeen[content] = true
+		l := litSrc(content, '"')
+		t := newTree()
+		t.files["tpl/layouts/l.tw"] = `[@reserve("a")][@reserve("b")]`
+		t.files["tpl/c.tw"] = "[{{ v }}][@slot]"
+		t.files["tpl/page.tw"] = `@use("~l")@insert("a", ` + l + `)@insert("b"){{ ` + l + ` }}@end`
+		t.files["tpl/comp.tw"] = `@component("c", {v: ` + l + `})@slot{{ ` + l + ` }}@end@end`
+		c := histCase("tree_contexts", t, []string{opNew("tpl", ".tw", "", false), opStr("page", nil), opStr("comp", nil)}, "NewTemplate; String(page); String(comp)")
+		one := oracleC10(content, "[", "]")
+		c.Oracle = func(c *Case, impl string) string {
+			rs := results(impl)
+			if len(rs) != 3 || !strings.HasPrefix(rs[0], "NEWOK") {
+				return "the tree must load and render: " + clip(impl, 200)
+			}
+			for _, r := range rs[1:] {
+				out, ok := outOf(r)
+				if !ok {
+					return "the page must render: " + clip(r, 200)
+				}
+				// the two occurrences are "[lit][lit]"
+				i := strings.Index(out, "][")
+				if i < 0 {
+					return "unexpected output " + clip(out, 120)
+				}
+				for _, part := range []string{out[:i+1], out[i+1:]} {
+					if msg := one(c, "OK "+hx(part)); msg != "" {
+						return msg
+					}
+				}
+			}
+			return ""
+		}
+		cs = append(cs, c)
+	}
+	for n := 0; n <= 1; n++ {
+		sigmaStrings(alpha, n, addTree)
+	}
+	for i := 0; i < g.scale(60, 3000); i++ {
+		addTree(g.sigmaRandom(alpha, g.scale(5, 8)))
 	}
 	maxExh := g.scale(2, 3)
 	for n := 0; n <= maxExh; n++ {
@@ -680,6 +757,27 @@ func scalarText(v *GV) (string, bool) {
 
 func casesC12(g *Gen) []*Case {
 	var cs []*Case
+	// different struct types that share one name, rendered one after the other in one process
+	{
+		srcs := []string{"{{ r.a }}-{{ r.b }}", "{{ r.b }}-{{ r.c }}-{{ r.a }}", "{{ r.name }}-{{ r.tags[0] }}-{{ r.tags.len() }}", "[{{ r }}]"}
+		wants := []string{"1-x", "y-1-2", "n-t-1", ""}
+		orders := [][]int64{{0, 1, 2, 3}, {1, 0, 3, 2}, {2, 1, 0}, {3, 2, 0, 1}, {1, 2}, {2, 0, 1, 0, 2}}
+		for _, ord := range orders {
+			var ops []string
+			var note []string
+			checks := map[int]func(string) string{}
+			for _, k := range ord {
+				if wants[k] != "" {
+					checks[len(ops)] = wantOK(wants[k])
+				}
+				ops = append(ops, opEvs(srcs[k], gvMap("r", gvNamed(k), "list", gvList(gvNamed(k), gvNamed((k+1)%3)))))
+				note = append(note, fmt.Sprintf("Rec#%d", k))
+			}
+			c := histCase("same_name_struct_types", newTree(), ops, "EvaluateString with struct types that are all named Rec: "+strings.Join(note, ", "))
+			c.Oracle = expectResults(checks)
+			cs = append(cs, c)
+		}
+	}
 	for i := 0; i < g.scale(8000, 150000); i++ {
 		root := g.goValue(4, g.chance(1, 5))
 		data := gvMap("d", root)
